@@ -70,7 +70,7 @@ theorem keep {α : Type} {l : List α} {gk : α → Nat} {k : Nat} :
 theorem loc_step (c : Cfg) (s : State) (a : Act) (s' : State) (hi : Inv c s) (hl : Located s)
     (hs : Step c s a s') : Located s' := by
   cases hs with
-  | @submit x id hf =>
+  | @submit x id hf _ =>
     intro k r hk
     rcases getElem?_snoc hk with ⟨hlt, hold⟩ | ⟨he, _⟩
     · have hne : k ≠ s.reqs.length := by omega
@@ -81,7 +81,7 @@ theorem loc_step (c : Cfg) (s : State) (a : Act) (s' : State) (hi : Inv c s) (hl
     · subst he
       simp only [upd_same]
       exact ⟨x, by simp⟩
-  | @ssubmit x id hf =>
+  | @ssubmit x id hf _ =>
     intro k r hk
     rcases getElem?_snoc hk with ⟨hlt, hold⟩ | ⟨he, _⟩
     · have hne : k ≠ s.reqs.length := by omega
@@ -92,7 +92,7 @@ theorem loc_step (c : Cfg) (s : State) (a : Act) (s' : State) (hi : Inv c s) (hl
     · subst he
       simp only [upd_same]
       exact ⟨x, by simp⟩
-  | @send ci x k0 rest cn r0 hp hc hr =>
+  | @send ci x k0 rest cn r0 hp hc hr _ =>
     intro k r hk
     by_cases hk0 : k = k0
     · subst hk0
@@ -109,7 +109,7 @@ theorem loc_step (c : Cfg) (s : State) (a : Act) (s' : State) (hi : Inv c s) (hl
       · intro cj; exact inQ_set hc (fun m hm hk => ⟨m, by simp [hm], hk⟩)
       · intro cj; exact inQ_set hc keep
       · intro cj; exact inQ_set hc keep
-  | @srvRecv ci cn m rest hc hw =>
+  | @srvRecv ci cn m rest hc hw _ =>
     intro k r hk
     by_cases hk0 : k = m.gk
     · subst hk0
@@ -144,7 +144,7 @@ theorem loc_step (c : Cfg) (s : State) (a : Act) (s' : State) (hi : Inv c s) (hl
         apply List.mem_of_getElem? (i := i)
         rw [List.getElem?_set]; simp [Ne.symm hij, hi2]
     · intro cj; exact inQ_set hc keep
-  | @respond ci cn t rest hc hq hd =>
+  | @respond ci cn t rest hc hq hd _ =>
     intro k r hk
     by_cases hk0 : k = t.gk
     · subst hk0
@@ -261,14 +261,14 @@ theorem notDone_set {l : List Task} {j : Nat} {t : Task} (h : l[j]? = some t) (h
 theorem measure_step (c : Cfg) {s s' : State} {a : Act} (hs : Step c s a s') (hint : a.internal = true) :
     measure s' + 1 ≤ measure s := by
   cases hs with
-  | submit hf => simp [Act.internal] at hint
-  | ssubmit hf => simp [Act.internal] at hint
-  | @send ci x k0 rest cn r0 hp hc hr =>
+  | submit hf _ => simp [Act.internal] at hint
+  | ssubmit hf _ => simp [Act.internal] at hint
+  | @send ci x k0 rest cn r0 hp hc hr _ =>
     have := sum_map_set (f := connMeasure) { cn with wire := cn.wire ++ [⟨r0.id, x, k0⟩] } hc
     have h2 : connMeasure { cn with wire := cn.wire ++ [⟨r0.id, x, k0⟩] } = connMeasure cn + 4 := by
       simp [connMeasure]; omega
     simp only [measure, hp, List.length_cons]; omega
-  | @srvRecv ci cn m rest hc hw =>
+  | @srvRecv ci cn m rest hc hw _ =>
     have := sum_map_set (f := connMeasure)
       { cn with wire := rest, srvq := cn.srvq ++ [⟨m.rid, m.data, false, m.gk⟩] } hc
     have h2 : connMeasure { cn with wire := rest, srvq := cn.srvq ++ [⟨m.rid, m.data, false, m.gk⟩] } + 1
@@ -281,7 +281,7 @@ theorem measure_step (c : Cfg) {s s' : State} {a : Act} (hs : Step c s a s') (hi
     have h2 : connMeasure { cn with srvq := cn.srvq.set j { t with done := true } } + 1 = connMeasure cn := by
       simp only [connMeasure, List.length_set]; omega
     simp only [measure]; omega
-  | @respond ci cn t rest hc hq hd =>
+  | @respond ci cn t rest hc hq hd _ =>
     have := sum_map_set (f := connMeasure)
       { cn with srvq := rest, back := cn.back ++ [⟨t.rid, c.handler t.data, t.gk⟩] } hc
     have h2 : connMeasure { cn with srvq := rest, back := cn.back ++ [⟨t.rid, c.handler t.data, t.gk⟩] } + 1
@@ -314,8 +314,37 @@ theorem internal_run_bounded (c : Cfg) :
       have h2 := measure_step c (step_sound c s s1 a hst) (hall a (by simp))
       simp only [List.length_cons]; omega
 
-/-- an unresolved request always has an enabled transport action (somewhere on its way) -/
-theorem progress (c : Cfg) (s : State) (h : Inv2 c s) (hn : 0 < c.nconn) (k : Nat) (r : Req)
+/-- the configurations in which the transport can make progress: a connection, and room for at least
+    one record in every buffer -/
+def Cfg.Live (c : Cfg) : Prop := 0 < c.nconn ∧ 0 < c.wireCap ∧ 0 < c.srvCap ∧ 0 < c.backCap
+
+/-- a connection that holds any record has an enabled transport action: the client can always take
+    the next response; otherwise the head task can complete or (the return direction being empty) be
+    answered; otherwise (the server queue being empty) the server can read the next record -/
+theorem conn_progress (c : Cfg) (s : State) (h : Inv c s) (hsc : 0 < c.srvCap) (hbc : 0 < c.backCap)
+    (ci : Nat) (cn : Conn) (hc : s.conns[ci]? = some cn)
+    (hne : cn.wire ≠ [] ∨ cn.srvq ≠ [] ∨ cn.back ≠ []) :
+    ∃ a, a.transport = true ∧ (step c s a).isSome = true := by
+  cases hb : cn.back with
+  | cons r0 rest =>
+    have h1 := (h.back_ok ci cn hc r0 (by rw [hb]; simp)).1
+    have hl := lookup_of_mem h.act_keys h1
+    exact ⟨.recv ci, rfl, by simp [step, hc, hb, hl]⟩
+  | nil =>
+    cases hq : cn.srvq with
+    | cons t rest =>
+      by_cases hd : t.done = true
+      · exact ⟨.respond ci, rfl, by simp [step, hc, hq, hd, hb, hbc]⟩
+      · exact ⟨.finish ci 0, rfl, by simp [step, hc, hq, hd]⟩
+    | nil =>
+      cases hw : cn.wire with
+      | cons m0 rest => exact ⟨.srvRecv ci, rfl, by simp [step, hc, hw, hq, hsc]⟩
+      | nil => simp [hb, hq, hw] at hne
+
+/-- an unresolved request always has an enabled transport action (somewhere on its way), whatever
+    the capacities of the buffers (≥ 1): flow control cannot wedge the transport -/
+theorem progress (c : Cfg) (s : State) (h : Inv2 c s) (hn : 0 < c.nconn) (hwc : 0 < c.wireCap)
+    (hsc : 0 < c.srvCap) (hbc : 0 < c.backCap) (k : Nat) (r : Req)
     (hk : s.reqs[k]? = some r) (hu : ∀ v, (k, v) ∉ s.results) :
     ∃ a, a.transport = true ∧ (step c s a).isSome = true := by
   have hloc := h.loc k r hk
@@ -333,34 +362,27 @@ theorem progress (c : Cfg) (s : State) (h : Inv2 c s) (hn : 0 < c.nconn) (k : Na
       obtain ⟨x0, k0⟩ := e
       have hlen : 0 < s.conns.length := by rw [h.nconn]; exact hn
       obtain ⟨⟨r0, hr0, _⟩, _⟩ := h.inv.pend_ok x0 k0 (by rw [hp]; simp)
-      refine ⟨.send 0, rfl, ?_⟩
       have hc : s.conns[0]? = some s.conns[0] := List.getElem?_eq_getElem hlen
-      simp [step, hp, hc, hr0]
+      by_cases hempty : s.conns[0].wire = [] ∧ s.conns[0].srvq = [] ∧ s.conns[0].back = []
+      · exact ⟨.send 0, rfl, by simp [step, hp, hc, hr0, hempty.1, hwc]⟩
+      · apply conn_progress c s h.inv hsc hbc 0 _ hc
+        by_cases h1 : s.conns[0].wire = []
+        · by_cases h2 : s.conns[0].srvq = []
+          · right; right; intro h3; exact hempty ⟨h1, h2, h3⟩
+          · right; left; exact h2
+        · left; exact h1
   | wire ci =>
     rw [hst] at hloc
     obtain ⟨cn, m, hc, hm, _⟩ := hloc
-    refine ⟨.srvRecv ci, rfl, ?_⟩
-    cases hw : cn.wire with
-    | nil => rw [hw] at hm; simp at hm
-    | cons m0 rest => simp [step, hc, hw]
+    exact conn_progress c s h.inv hsc hbc ci cn hc (Or.inl (List.ne_nil_of_mem hm))
   | srv ci =>
     rw [hst] at hloc
     obtain ⟨cn, m, hc, hm, _⟩ := hloc
-    cases hq : cn.srvq with
-    | nil => rw [hq] at hm; simp at hm
-    | cons t rest =>
-      by_cases hd : t.done = true
-      · exact ⟨.respond ci, rfl, by simp [step, hc, hq, hd]⟩
-      · exact ⟨.finish ci 0, rfl, by simp [step, hc, hq, hd]⟩
+    exact conn_progress c s h.inv hsc hbc ci cn hc (Or.inr (Or.inl (List.ne_nil_of_mem hm)))
   | back ci =>
     rw [hst] at hloc
     obtain ⟨cn, m, hc, hm, _⟩ := hloc
-    cases hb : cn.back with
-    | nil => rw [hb] at hm; simp at hm
-    | cons r0 rest =>
-      have h1 := (h.inv.back_ok ci cn hc r0 (by rw [hb]; simp)).1
-      have hl := lookup_of_mem h.inv.act_keys h1
-      exact ⟨.recv ci, rfl, by simp [step, hc, hb, hl]⟩
+    exact conn_progress c s h.inv hsc hbc ci cn hc (Or.inr (Or.inr (List.ne_nil_of_mem hm)))
 
 theorem resultOf_of_mem {rs : List (Nat × Resp)} {k : Nat} {v : Resp} (h : (k, v) ∈ rs) :
     (resultOf rs k).isSome = true := by
